@@ -59,6 +59,11 @@ CLAIMED = {
                 text='Proof (loop invariants for the two monotone pointers, symbolic node vectors) that every segment emitted by _volume_average_weights has positive length, valid cell indices, its centre in the stated output cell and in the stated (or nearest) input cell; '
                      'that interp_volume_average adds w_z w_y w_x values[in] to new[out] per triple of segments and divides by the cell volume (hence linear with non-negative weights); that interpolate(method=volume) always runs this kernel (log10 before / 10** after in log mode) '
                      'and that Model.interpolate_to_grid uses log mode exactly for the linear mappings.'),
+    'C20': dict(ref='5 (C20)', tech=TECH + '; element-wise lifting of boolean masks over the generic frequency',
+                note=NOTE + ' Interpolating-spline and shape-preserving PCHIP behaviour of SciPy and the reference transform of empymod are assumed contracts; precondition fmin <= fmax.',
+                text='Proof over all paths of the frequency bookkeeping properties and of Fourier.interpolate for the three coarse-frequency options: the three groups (below / within / above the band) are disjoint and exhaustive, '
+                     'computed frequencies lie in the band, nothing is written above fmax, the band is filled with the data themselves (only when coarse and required frequencies are the same array) or their spline in log-frequency, '
+                     'the part below fmin with the PCHIP through the documented extended point, and freq2time hands the filled spectrum and the unchanged settings to the reference transform.'),
 }
 NOT_APPLICABLE = {
     'C06': 'grid-independent convergence rate: empirical/spectral statement about floating-point iteration counts; no per-call contract expresses or decides it',
